@@ -146,6 +146,38 @@ async fn sequential(rep: &mut Report, n: u32, min_idle: usize) {
     w.client.stop_session_pool_cleanup().await;
 }
 
+/// sequential requests separated by pauses longer than idle_timeout: with min_idle >= 1 the reaper
+/// keeps a session, so a later request must still be served without a new connection
+async fn sequential_with_pauses(rep: &mut Report, n: u32, min_idle: usize) {
+    let pool = SessionPoolConfig { check_interval: Duration::from_millis(200), idle_timeout: Duration::from_millis(400), min_idle_sessions: min_idle };
+    let Some(w) = build_world(pool).await else {
+        rep.inconclusive("cannot build world");
+        return;
+    };
+    let mut dials_after: Vec<usize> = Vec::new();
+    for i in 0..n {
+        if let Err(e) = socks_request(&w, 3000 + i).await {
+            rep.inconclusive(format!("paused sequential request {i}: {e}"));
+            return;
+        }
+        dials_after.push(w.relay.accepted.load(Ordering::SeqCst));
+        tokio::time::sleep(Duration::from_millis(750)).await; // > idle_timeout + check_interval
+    }
+    rep.add("paused_sequential_requests", n as u64);
+    let case = json!({"kind": "c13-sequential-pauses", "requests": n, "min_idle": min_idle, "idle_timeout_ms": 400, "pause_ms": 750, "tls_connections_after_each_request": dials_after});
+    rep.case(Some(hash_str(&case.to_string())));
+    rep.sample(case.clone());
+    let total = *dials_after.last().unwrap_or(&0);
+    if total > 1 {
+        rep.violate("reuse", "sequential_requests_with_pauses", "non_overlapping_request_redialled", format!("{n} sequential requests with 750 ms pauses (idle_timeout 400 ms, min_idle {min_idle}: the reaper keeps a session) were served over {total} TLS connections: {:?}", dials_after), case.clone());
+    }
+    let open = w.relay.open.load(Ordering::SeqCst);
+    if open > 1 + min_idle {
+        rep.violate("reuse", "sequential_requests_with_pauses", "sessions_accumulate", format!("{open} TLS connections are open after {n} sequential requests with pauses (peak concurrency 1, min_idle {min_idle})"), case);
+    }
+    w.client.stop_session_pool_cleanup().await;
+}
+
 async fn bursty(rep: &mut Report, k: u32, rounds: u32) {
     let pool = SessionPoolConfig { check_interval: Duration::from_secs(3600), idle_timeout: Duration::from_secs(7200), min_idle_sessions: 1 };
     let Some(w) = build_world(pool).await else {
@@ -251,6 +283,9 @@ pub fn run(ctx: Ctx) -> Report {
         for (n, min_idle) in if quick { vec![(12u32, 1usize), (7, 0)] } else { vec![(12, 1), (7, 0), (40, 2), (200, 1), (3, 5)] } {
             sequential(&mut rep, n, min_idle).await;
         }
+        for (n, min_idle) in if quick { vec![(4u32, 1usize)] } else { vec![(4, 1), (6, 2), (10, 1)] } {
+            sequential_with_pauses(&mut rep, n, min_idle).await;
+        }
         for (k, rounds) in if quick { vec![(4u32, 3u32)] } else { vec![(4, 3), (8, 5), (2, 12), (16, 3)] } {
             bursty(&mut rep, k, rounds).await;
         }
@@ -289,9 +324,9 @@ pub fn run_c12_client_level(ctx: Ctx) -> Report {
 pub fn meta() -> CheckMeta {
     CheckMeta {
         level: "exploration",
-        rule: "real Client + SOCKS5 front-end + Server over loopback TLS behind a TCP relay that counts TLS connections (accepted, open, peak). Sequential histories of 3-200 complete requests (connect, echo, application closes, target closes, front-end winds down) with min_idle in {0,1,2,5}: the number of TLS connections after each request is recorded; every request after the first must be served without a new connection, and at the end at most 1 + min_idle connections may be open. Bursty histories: rounds of k in {2,4,8,16} concurrent requests, each round after the previous one finished: at most k connections in total, at most k+1 open. The reaper and keep-alive are effectively off (3600 s) so that only reuse is observed. distinct_nontrivial = distinct histories.".into(),
+        rule: "real Client + SOCKS5 front-end + Server over loopback TLS behind a TCP relay that counts TLS connections (accepted, open, peak). Sequential histories of 3-200 complete requests (connect, echo, application closes, target closes, front-end winds down) with min_idle in {0,1,2,5}: the number of TLS connections after each request is recorded; every request after the first must be served without a new connection, and at the end at most 1 + min_idle connections may be open. Paused histories: 4-10 sequential requests separated by 750 ms with idle_timeout 400 ms / check_interval 200 ms and min_idle >= 1 (the reaper must keep a session, so still 1 connection). Bursty histories: rounds of k in {2,4,8,16} concurrent requests, each round after the previous one finished: at most k connections in total, at most k+1 open. The reaper and keep-alive are effectively off (3600 s) so that only reuse is observed. distinct_nontrivial = distinct histories.".into(),
         assumptions: vec!["a request counts as finished once the application socket saw end of stream and 60 ms have passed".into(), "healthy session: the server and relay stay up for the whole history".into()],
-        floors: vec![("sequential_requests", 15), ("burst_rounds", 3)],
+        floors: vec![("sequential_requests", 15), ("burst_rounds", 3), ("paused_sequential_requests", 4)],
         exhaustive: false,
     }
 }
